@@ -1278,7 +1278,8 @@ def parse_txt(txt, xopts=None, **kwargs):
     else:
         xopts.__dict__.update(**kwargs)
 
-    if xopts.expander is None:
+    default_expander = xopts.expander is None
+    if default_expander:
         from mwlib.parser.expander import DictDB, Expander
 
         xopts.expander = Expander("", "pagename", wikidb=DictDB())
@@ -1291,7 +1292,9 @@ def parse_txt(txt, xopts=None, **kwargs):
     uniquifier = xopts.uniquifier
     if uniquifier is None:
         log.debug(f"creating uniquifier for {txt}")
-        uniquifier = uniq.Uniquifier()
+        # one marker table for this text and for what the expander protects
+        # inside <ref>/<poem> bodies: two tables hand out the same markers
+        uniquifier = xopts.expander.uniquifier if default_expander else uniq.Uniquifier()
         txt = uniquifier.replace_tags(txt)
         xopts.uniquifier = uniquifier
 
